@@ -6,7 +6,7 @@ NOTES = ("All checks are ./check <id> --tier quick|thorough (runner/vrunner.py).
          "spec/b3spec (anchored against a second Python model and the published vectors on every run).")
 
 ENGINES_DOC = [
-    {"name": "core", "path": "engines/core", "serves_properties": ["C01", "C02", "C03", "C09", "C10", "C11"],
+    {"name": "core", "path": "engines/core", "serves_properties": ["C01", "C02", "C03", "C09", "C10", "C11", "C14", "C15", "C16", "C17"],
      "kind_free_text": "Rust; drives the real blake3 crate (path dependency on /repo) with forced SIMD levels; bounded-exhaustive enumeration and explicit-state BFS over the real Hasher/OutputReader"},
 ]
 
@@ -52,6 +52,31 @@ CHECKS["C11"] = {
     "technique": "deviation-bounded exhaustive enumeration of reader answer sequences and file shapes on the real adapters (environment-answer exploration)",
     "text": "update_reader runs over a scripted Read; every sequence of answers {fill, short 1/63/1024/65535, Interrupted, hard error, early Ok(0)} with at most 4 (quick) / 5 (thorough) deviations from the default is executed (iterating the bound, so the first counterexample has the fewest deviations) on six stream lengths around the 64 KiB buffer, from empty and non-empty hashers; the oracle is the spec hash of exactly the bytes yielded, the count, the error/EOF protocol, and observational equality with update(). update_reader(File), update_mmap and update_mmap_rayon are run on regular files of every length 0..=300, 16384+-70 and around 64 KiB/1 MiB, on /proc, /dev/null, a directory, a missing path, a FIFO and an unmappable sysfs file - once normally and once with file-backed mmap forced to fail by an LD_PRELOAD interposer.",
     "note": "Trusted: b3spec; the interposer (shims/mmapfail.c). Reader content is stream A.",
+}
+
+CHECKS["C14"] = {
+    "engine": "core/hash_value", "category": "exploration", "design_ref": "DESIGN.md 3/C14",
+    "technique": "exhaustive enumeration of the decomposed value domain (every byte value at every position, every length, every single-bit pair)",
+    "text": "Every byte value at every one of the 32 positions (three backgrounds) through to_hex/Display/Debug/from_hex (&str, &[u8], String; lower and upper case)/FromStr/[u8;32]/slices; every byte value 0..255 at every one of the 64 positions of a valid hex string (accepted iff a hex digit, with the defined value); every input length 0..=130; from_slice on every length 0..=70; equality of Hash with Hash, [u8;32] and [u8] for all 256 single-bit differences and for slices of every length sharing the prefix; serde JSON and CBOR (sequence and legacy byte-string form) round trips. All under catch_unwind.",
+    "note": "The 2^256 value space is decomposed per position. serde checked with serde_json and ciborium.",
+}
+CHECKS["C15"] = {
+    "engine": "core/refimpl", "category": "exploration", "design_ref": "DESIGN.md 3/C15",
+    "technique": "bounded-exhaustive enumeration of lengths, update histories and output lengths on the real reference_impl, and of every field of test_vectors.json, vs independent spec model",
+    "text": "reference_impl::Hasher in three modes: every single-update length 0..=17409 (quick) / 66561 (thorough) plus lattice, every history of up to 3 / 4 updates over the fine alphabet and 3 over the coarse one, every output length 0..=200 and 1024/1025/4099; every field of the live test_vectors.json (key, context, comment, the 35 lengths, 3 x 131 bytes each) against b3spec and directly against the optimized crate and the reference implementation.",
+    "note": "Trusted: b3spec (anchored against a copy of the vectors kept in /verif and a second model).",
+}
+CHECKS["C16"] = {
+    "engine": "core/traits_bfs+guts", "category": "model_checking", "design_ref": "DESIGN.md 3/C16",
+    "technique": "explicit-state BFS with a second hasher driven in lock-step only through the RustCrypto traits; enumeration of guts arguments vs spec nodes",
+    "text": "From every state of the fine (+reset) and a coarse Hasher exploration a second hasher, constructed and driven only through digest::{Digest, Update, Reset, KeyInit}, must have the identical complete state after every step, and in every state FixedOutput, FixedOutputReset, ExtendableOutput(+Reset), XofReader, Digest and Mac (finalize, verify, verify_slice, verify_truncated_left) must agree with the inherent API, the resetting variants leaving exactly the state of a reset hasher. guts::ChunkState is enumerated over every length 0..=1024, seven splits, edge chunk counters across 2^32 and up to 2^64-1 and is_root (counter 0), guts::parent_cv over CV pairs including all 256 walking-one values, against spec chunk/parent nodes.",
+    "note": "Trusted: b3spec, H4 hook. is_root with a non-zero chunk counter is outside the domain (a root chunk is chunk 0; the crate debug-asserts it) and is not generated.",
+}
+CHECKS["C17"] = {
+    "engine": "core/secrecy", "category": "model_checking", "design_ref": "DESIGN.md 3/C17",
+    "technique": "non-interference check over the explored state space: lock-step second lane with different secrets, Debug output and post-zeroize raw memory compared",
+    "text": "Every state of the fine and a coarse Hasher exploration is reached in lock-step by a second hasher with a different key/context and different input bytes; {:?} and {:#?} must be byte-identical and contain no key/CV word. The same for OutputReader (positions x reads) and guts::ChunkState (every length). With the zeroize feature, Hasher and OutputReader objects built with two different secrets over 16 (quick) / 96 (thorough) shapes must have identical raw memory after zeroize() (offsets unstable between identically built objects are excluded and counted), and a zeroized Hash must be all zero.",
+    "note": "Two fixed secret assignments per mode. Raw memory is read through a byte pointer.",
 }
 
 NOT_APPLICABLE = {("C%02d" % i): PENDING for i in range(1, 19)}
